@@ -34,7 +34,8 @@ ASSUMPTIONS = [
 ]
 FLOORS = {'schedules': 200, 'evaluate_outcomes': 2000, 'snapshots': 50,
           'growth_windows': 4, 'dependent_order_pairs': 50,
-          'derived_models': 20, 'own_namespace_evaluators': 20}
+          'derived_models': 20, 'own_namespace_evaluators': 20,
+          'evaluations_after_reassignment': 500}
 ANCHOR_FUNCS = {
     'xlcalculator/evaluator.py': ['Evaluator.evaluate',
                                   'EvaluatorContext.eval_cell'],
@@ -311,6 +312,59 @@ def run(ctx):
                       'before': {a: before[0].get(a) for a in diff[:10]},
                       'after': {a: after[0].get(a) for a in diff[:10]}},
                      monitor='model-unchanged', group='snapshot')
+        # ---- the same evaluators after inputs were re-assigned: which
+        # Evaluator instance is asked (an old one that has seen the old
+        # values, or a fresh one) must not matter, whatever way the API
+        # offers was used to assign the value
+        from xlcalculator import xltypes
+        route = rng.choice(['evaluator, address text', 'evaluator, XLCell',
+                            'model, address text', 'model, XLCell'])
+        wb2 = m.workbook()
+        changed = rng.sample(m.inputs, min(len(m.inputs), rng.randint(1, 3)))
+        try:
+            for k in changed:
+                v = rng.choice([11, 12, 13, 0.25, -3])
+                target = build.addr(k)
+                if 'XLCell' in route:
+                    target = xltypes.XLCell(target, None)
+                (rng.choice(evs) if route.startswith('evaluator')
+                 else model).set_cell_value(target, v)
+                wb2.cells[k] = v
+            want2 = {k: ref.to_norm(wb2.value(k)) for k in m.order}
+        except ref.Undecided:
+            want2 = None
+        except Exception as e:  # noqa
+            ctx.fail(f'set_cell_value ({route}) raised {e!r}',
+                     {'cells': build.dict_of(wb), 'route': route},
+                     monitor='construction', group='set')
+            want2 = None
+        if want2 is not None:
+            ctx.event('reassigned_models')
+            pool = evs + evaluators(model)[:1]
+            sched = list(m.order)
+            rng.shuffle(sched)
+            for k in sched:
+                i_ev = rng.randrange(len(pool))
+                a = build.addr(k)
+                got = subject.outcome_of(lambda: pool[i_ev].evaluate(a))
+                ctx.event('evaluate_outcomes')
+                ctx.event('evaluations_after_reassignment')
+                ok = got == ('value', want2[k]) or (
+                    got[0] == 'value' and want2[k] == ('blank',)
+                    and got[1] == ('blank',))
+                if not ok:
+                    which = 'a fresh evaluator' if i_ev == len(pool) - 1 \
+                        else f'evaluator #{i_ev} (created before the change)'
+                    ctx.fail(f'{a} evaluated to {got} by {which} after '
+                             f'{[build.addr(x) for x in changed]} were '
+                             f're-assigned ({route}), reference {want2[k]}',
+                             {'cells': build.dict_of(wb), 'model': prov,
+                              'reassigned': {build.addr(x): wb2.cells[x]
+                                             for x in changed},
+                              'route': route, 'cell': a, 'observed': got,
+                              'reference': want2[k]},
+                             monitor='evaluator-independence',
+                             group=f'reassigned:{route}')
         if ctx.want_sample() and rng.random() < 0.1:
             ctx.sample({'cells': build.dict_of(wb),
                         'schedules': len(perms), 'evaluators': n_ev,
